@@ -1,19 +1,32 @@
 //! C20: deterministic scheduler for the auto reloader (needs hook H3, cargo feature `hooks`).
 //!
 //! Worker threads perform scripted operations on one real `AutoReloader`; they park at every
-//! yield point of the reloader (before each lock acquisition, around the creator call) and a
-//! controller releases exactly one thread at a time.  A *step* is what a released thread does
-//! until it parks again; each step becomes one event `tid point a g v` of the trace:
+//! yield point of the reloader (before each lock acquisition, around the creator call) AND inside
+//! the user callbacks (freshness callback, on-should-reload callback: these run with the notifier
+//! mutex held and may take arbitrarily long), and a controller releases exactly one thread at a
+//! time.  A *step* is what a released thread does until it parks again; each step becomes one
+//! event `tid point a g v w` of the trace:
 //!
-//!   point  1 REQ_SET (request_reload: flag section)      2 REQ_NOTIFY (callback section; request returns)
-//!          3 ACQ_CACHE (cache mutex)                     4 ACQ_CHECK (should_reload; a = 0 freshness callback
-//!          5 ACQ_MARK (flag reset)                          not polled, 1 polled->false, 2 polled->true)
-//!          6 ACQ_FAST (fast_reload read, maybe clear)    7 CRE_START (a = generation given to this creator call)
-//!          8 CRE_END (a = 1 creator Ok, 0 Err)           9 ACQ_RESTORE (flag restored after a failed creator)
-//!         10 DROP (guard dropped; g v re-observed before the drop)
-//!   g v    what acquire_env returned in this step: 0 0 nothing returned yet, -1 0 returned Err,
-//!          otherwise the environment handed out: g = generation of the creator call that built it,
-//!          v = number of completed flag-sets when its template "v" was (re)loaded.
+//!   point  1 REQ_SET (request_reload: flag section; a = number of the source version the requester published
+//!            before the call)                            2 REQ_NOTIFY (callback section; a = 4 if it ends inside the callback)
+//!          3 ACQ_CACHE (cache mutex)                     4 ACQ_CHECK (should_reload; a = 1 if it ends inside the freshness callback)
+//!          5 ACQ_MARK (flag reset)                       6 ACQ_FAST (fast_reload read, maybe clear)
+//!          7 CRE_START (a = generation of this creator call)   8 CRE_END (a = 1 creator Ok, 0 Err)
+//!          9 ACQ_RESTORE (flag restored after a failed creator)   10 DROP (guard dropped; g v w re-observed before the drop)
+//!         11 FRESH_END (freshness callback returns; a = 1 false, 2 true, +4 if it ends inside the on-should-reload callback)
+//!         12 ONCB_END (on-should-reload callback returns)
+//!         13 BLOCKED (a = the point the thread was released from: it tried to take the notifier mutex while another
+//!            thread was parked inside a callback, and went to sleep on the mutex; it continues right after the
+//!            step that releases the mutex)
+//!   g v w  what returned in this step: 0 nothing, -1 acquire_env returned Err, -2 request_reload returned,
+//!          otherwise acquire_env returned a guard: g = generation of the creator call that built the environment,
+//!          v = number of completed flag-sets when its template "v" was (re)loaded, w = source version it shows.
+//!
+//! While a thread is parked inside a callback the notifier mutex is held.  A thread parked before a
+//! notifier lock can then only be released *speculatively* (at most one at a time): the controller
+//! watches whether it really goes to sleep on the mutex (kernel thread state, /proc) - event BLOCKED -
+//! or gets past the lock attempt without blocking (then its step is recorded like any other: a lock
+//! attempt that neither acquires nor blocks is visible in the trace).
 //!
 //! Case (one line): mode fast fresh oncb ncre c1..cn nthreads (nops op..)* nsched s1..sn params..
 //!   mode 0: run this schedule (then lowest enabled thread id), print one run line
@@ -22,15 +35,16 @@
 //!   mode 2: params = count seed: random schedules extending the prefix; run lines, then END
 //!   ops: 1 request_reload, 2 acquire_env + hold + drop;  creator script: bit0 = fail, bit1 = request inside
 //!   fresh: 0 no callback, 1 always false, 2 always true, 3 alternate starting true, 4 alternate starting false
-//! Run line: `R <mode-0 case with the full schedule> | fast fresh oncb nev (tid point a g v)* | loads oncb_calls status`
+//! Run line: `R <mode-0 case with the full schedule> | fast fresh oncb nev (tid point a g v w)* | loads oncb_calls status`
 //!   status 0 ok, 3 schedule names a thread that is not enabled.  Deadlock / hang: line `HANG ...` and exit 3.
 use minijinja::{Environment, Error, ErrorKind};
 use minijinja_autoreload::{AutoReloader, Notifier};
 use mjverif::Rng;
 use std::cell::RefCell;
 use std::io::{BufRead, Write};
+use std::sync::atomic::{AtomicU8, Ordering};
 use std::sync::{Arc, Condvar, Mutex};
-use std::time::Duration;
+use std::time::{Duration, Instant};
 
 #[derive(Clone, Copy, PartialEq, Debug)]
 enum Status {
@@ -47,14 +61,17 @@ struct Ev {
     a: i64,
     g: i64,
     v: i64,
+    w: i64,
 }
 
 struct Inner {
     status: Vec<Status>,
     turn: Option<usize>,
     cur: Vec<Option<Ev>>,
-    trace: Vec<Ev>,
+    out: Vec<Vec<Ev>>, // finished events per thread; the controller moves them into the trace
+    ktid: Vec<u64>,    // kernel thread ids
     reqs_done: i64,
+    src: i64,
     gen: i64,
     loads: i64,
     oncb: i64,
@@ -64,8 +81,9 @@ struct Inner {
 
 struct Shared {
     m: Mutex<Inner>,
-    cv: Condvar,       // controller waits here
-    tcv: Vec<Condvar>, // worker t waits on tcv[t]
+    cv: Condvar,          // controller waits here
+    tcv: Vec<Condvar>,    // worker t waits on tcv[t]
+    idle: Vec<AtomicU8>,  // 1 = thread t is parked or done (readable without the mutex)
 }
 
 thread_local! {
@@ -92,6 +110,11 @@ fn point_code(name: &str) -> i64 {
     }
 }
 
+/// points that are followed by an acquisition of the notifier mutex
+fn takes_notifier(pt: i64) -> bool {
+    matches!(pt, 1 | 2 | 4 | 5 | 6 | 9)
+}
+
 impl Shared {
     fn yield_at(&self, tid: usize, pt: i64) {
         let mut g = self.m.lock().unwrap();
@@ -100,24 +123,34 @@ impl Shared {
             g.reqs_done += 1;
         }
         if let Some(ev) = g.cur[tid].take() {
-            g.trace.push(ev);
+            g.out[tid].push(ev);
         }
         g.status[tid] = Status::Parked(pt);
+        self.idle[tid].store(1, Ordering::SeqCst);
         self.cv.notify_one();
         while g.turn != Some(tid) {
             g = self.tcv[tid].wait(g).unwrap();
         }
         g.turn = None;
         g.status[tid] = Status::Running;
-        let a = if pt == 8 { g.last_creator_ok as i64 } else { 0 };
-        g.cur[tid] = Some(Ev { tid, pt, a, g: 0, v: 0 });
+        let a = match pt {
+            8 => g.last_creator_ok as i64,
+            1 => {
+                // the requester publishes a new source version, then notifies
+                g.src += 1;
+                g.src
+            }
+            _ => 0,
+        };
+        g.cur[tid] = Some(Ev { tid, pt, a, g: 0, v: 0, w: 0 });
     }
     fn finish(&self, tid: usize) {
         let mut g = self.m.lock().unwrap();
         if let Some(ev) = g.cur[tid].take() {
-            g.trace.push(ev);
+            g.out[tid].push(ev);
         }
         g.status[tid] = Status::Done;
+        self.idle[tid].store(1, Ordering::SeqCst);
         self.cv.notify_one();
     }
     fn set_cur<F: FnOnce(&mut Ev)>(&self, tid: usize, f: F) {
@@ -137,13 +170,31 @@ struct Config {
     threads: Vec<Vec<i64>>,
 }
 
-fn observe(env: &Environment<'static>) -> (i64, i64) {
+fn observe(env: &Environment<'static>) -> (i64, i64, i64) {
     let s = env
         .get_template("v")
         .and_then(|t| t.render(()))
-        .unwrap_or_else(|_| "-7 -7".into());
+        .unwrap_or_else(|_| "-7 -7 -7".into());
     let mut it = s.split_whitespace().map(|x| x.parse::<i64>().unwrap_or(-7));
-    (it.next().unwrap_or(-7), it.next().unwrap_or(-7))
+    (it.next().unwrap_or(-7), it.next().unwrap_or(-7), it.next().unwrap_or(-7))
+}
+
+/// kernel scheduling state of a thread of this process ('S' = sleeping, e.g. on a futex)
+fn kernel_state(ktid: u64) -> u8 {
+    match std::fs::read_to_string(format!("/proc/self/task/{}/stat", ktid)) {
+        Ok(s) => match s.rfind(')') {
+            Some(i) => s.as_bytes().get(i + 2).copied().unwrap_or(b'?'),
+            None => b'?',
+        },
+        Err(_) => b'?',
+    }
+}
+
+fn my_ktid() -> u64 {
+    std::fs::read_link("/proc/thread-self")
+        .ok()
+        .and_then(|p| p.file_name().and_then(|f| f.to_str().and_then(|s| s.parse().ok())))
+        .unwrap_or(0)
 }
 
 struct RunResult {
@@ -170,8 +221,10 @@ fn run_one(cfg: &Config, prefix: &[usize], rng: &mut Option<Rng>) -> RunResult {
             status: vec![Status::Starting; n],
             turn: None,
             cur: vec![None; n],
-            trace: Vec::new(),
+            out: vec![Vec::new(); n],
+            ktid: vec![0; n],
             reqs_done: 0,
+            src: 0,
             gen: 0,
             loads: 0,
             oncb: 0,
@@ -180,6 +233,7 @@ fn run_one(cfg: &Config, prefix: &[usize], rng: &mut Option<Rng>) -> RunResult {
         }),
         cv: Condvar::new(),
         tcv: (0..n).map(|_| Condvar::new()).collect(),
+        idle: (0..n).map(|_| AtomicU8::new(0)).collect(),
     });
     let script = cfg.creators.clone();
     let reloader = Arc::new(AutoReloader::new(move |notifier: Notifier| {
@@ -200,7 +254,7 @@ fn run_one(cfg: &Config, prefix: &[usize], rng: &mut Option<Rng>) -> RunResult {
             if name == "v" {
                 let mut g = sh2.m.lock().unwrap();
                 g.loads += 1;
-                Ok(Some(format!("{{{{ g }}}} {}", g.reqs_done)))
+                Ok(Some(format!("{{{{ g }}}} {} {}", g.reqs_done, g.src)))
             } else {
                 Ok(None)
             }
@@ -209,6 +263,7 @@ fn run_one(cfg: &Config, prefix: &[usize], rng: &mut Option<Rng>) -> RunResult {
         env.get_template("v")?;
         if act & 2 != 0 {
             notifier.request_reload();
+            sh.set_cur(tid, |ev| ev.g = -2);
         }
         let ok = act & 1 == 0;
         sh.m.lock().unwrap().last_creator_ok = ok;
@@ -222,8 +277,14 @@ fn run_one(cfg: &Config, prefix: &[usize], rng: &mut Option<Rng>) -> RunResult {
     notifier.set_fast_reload(cfg.fast != 0);
     if cfg.fresh != 0 {
         let mode = cfg.fresh;
-        let shc = sh.clone();
         notifier.set_callback(move || {
+            // user code running with the notifier mutex held: a preemptible region
+            let (shc, tid) = match ctx() {
+                Some(c) => c,
+                None => return false,
+            };
+            shc.set_cur(tid, |ev| ev.a = 1);
+            shc.yield_at(tid, 11);
             let mut g = shc.m.lock().unwrap();
             let k = g.fresh_calls;
             g.fresh_calls += 1;
@@ -233,18 +294,24 @@ fn run_one(cfg: &Config, prefix: &[usize], rng: &mut Option<Rng>) -> RunResult {
                 3 => k % 2 == 0,
                 _ => k % 2 == 1,
             };
-            if let Some((_, tid)) = ctx() {
-                if let Some(ev) = g.cur[tid].as_mut() {
-                    ev.a = if ans { 2 } else { 1 };
-                }
+            if let Some(ev) = g.cur[tid].as_mut() {
+                ev.a = if ans { 2 } else { 1 };
             }
             ans
         });
     }
     if cfg.oncb != 0 {
-        let shc = sh.clone();
         notifier.set_on_should_reload_callback(move || {
-            shc.m.lock().unwrap().oncb += 1;
+            if let Some((shc, tid)) = ctx() {
+                {
+                    let mut g = shc.m.lock().unwrap();
+                    g.oncb += 1;
+                    if let Some(ev) = g.cur[tid].as_mut() {
+                        ev.a += 4;
+                    }
+                }
+                shc.yield_at(tid, 12);
+            }
         });
     }
     let mut handles = Vec::new();
@@ -255,22 +322,28 @@ fn run_one(cfg: &Config, prefix: &[usize], rng: &mut Option<Rng>) -> RunResult {
         let builder = std::thread::Builder::new().stack_size(512 * 1024);
         handles.push(builder.spawn(move || {
             CTX.with(|c| *c.borrow_mut() = Some((sh.clone(), tid)));
+            sh.m.lock().unwrap().ktid[tid] = my_ktid();
             let notifier = reloader.notifier();
             for op in ops {
                 match op {
-                    1 => notifier.request_reload(),
+                    1 => {
+                                    notifier.request_reload();
+                        sh.set_cur(tid, |ev| ev.g = -2);
+                    }
                     _ => match reloader.acquire_env() {
                         Ok(guard) => {
-                            let (g, v) = observe(&guard);
+                            let (g, v, w) = observe(&guard);
                             sh.set_cur(tid, |ev| {
                                 ev.g = g;
                                 ev.v = v;
+                                ev.w = w;
                             });
                             sh.yield_at(tid, 10);
-                            let (g, v) = observe(&guard);
+                            let (g, v, w) = observe(&guard);
                             sh.set_cur(tid, |ev| {
                                 ev.g = g;
                                 ev.v = v;
+                                ev.w = w;
                             });
                             drop(guard);
                         }
@@ -284,44 +357,90 @@ fn run_one(cfg: &Config, prefix: &[usize], rng: &mut Option<Rng>) -> RunResult {
     }
     // controller
     let mut path: Vec<(usize, u32)> = Vec::new();
+    let mut trace: Vec<Ev> = Vec::new();
     let mut status = 0;
-    let mut seen = 0usize;
-    let mut holder: Option<usize> = None;
+    let mut holder: Option<usize> = None; // cache mutex, from the observed events
+    let mut limbo: Option<usize> = None;  // the one thread asleep on the notifier mutex
+    let mut last: Option<usize> = None;
+    let sched_of = |path: &Vec<(usize, u32)>| -> Vec<usize> { path.iter().map(|p| p.0).collect() };
     loop {
         let mut g = sh.m.lock().unwrap();
-        while g.status.iter().any(|s| matches!(s, Status::Running | Status::Starting)) {
+        let busy = |g: &Inner, limbo: Option<usize>| {
+            g.status.iter().enumerate().any(|(t, s)| Some(t) != limbo && matches!(s, Status::Running | Status::Starting))
+        };
+        while busy(&g, limbo) {
             let (g2, to) = sh.cv.wait_timeout(g, Duration::from_secs(10)).unwrap();
             g = g2;
-            if to.timed_out() && g.status.iter().any(|s| matches!(s, Status::Running | Status::Starting)) {
-                let sched: Vec<usize> = path.iter().map(|p| p.0).collect();
+            if to.timed_out() && busy(&g, limbo) {
                 drop(g);
-                hang("thread-did-not-reach-a-yield-point", cfg, &sched);
+                hang("thread-did-not-reach-a-yield-point", cfg, &sched_of(&path));
+            }
+        }
+        // move the finished events into the trace: the thread that was released first
+        let mut order: Vec<usize> = Vec::new();
+        if let Some(t) = last {
+            order.push(t);
+        }
+        order.extend((0..n).filter(|t| Some(*t) != last));
+        let notifier_held = g.status.iter().any(|s| matches!(s, Status::Parked(11) | Status::Parked(12)));
+        if let Some(t) = limbo {
+            if !matches!(g.status[t], Status::Running) {
+                // it already took the released mutex and reached its next yield point
+                limbo = None;
+            } else if !notifier_held {
+                // the mutex was released by the last step: the sleeper takes it and runs to its next yield point
+                let t0 = Instant::now();
+                while matches!(g.status[t], Status::Running) {
+                    let (g2, _) = sh.cv.wait_timeout(g, Duration::from_millis(200)).unwrap();
+                    g = g2;
+                    if t0.elapsed() > Duration::from_secs(10) {
+                        drop(g);
+                        hang("blocked-thread-did-not-continue-after-the-notifier-mutex-was-released", cfg, &sched_of(&path));
+                    }
+                }
+                limbo = None;
+            }
+        }
+        for t in order {
+            if Some(t) == limbo {
+                continue;
+            }
+            let evs: Vec<Ev> = g.out[t].drain(..).collect();
+            for ev in evs {
+                if ev.pt == 3 {
+                    holder = Some(ev.tid);
+                }
+                if ev.g == -1 || ev.pt == 10 {
+                    holder = None;
+                }
+                trace.push(ev);
             }
         }
         if g.status.iter().all(|s| *s == Status::Done) {
             break;
         }
-        for ev in &g.trace[seen..] {
-            if ev.pt == 3 {
-                holder = Some(ev.tid);
-            }
-            if ev.g == -1 || ev.pt == 10 {
-                holder = None;
-            }
-        }
-        seen = g.trace.len();
+        let notifier_held = g.status.iter().any(|s| matches!(s, Status::Parked(11) | Status::Parked(12)));
         let mut mask = 0u32;
         for (t, s) in g.status.iter().enumerate() {
+            if Some(t) == limbo {
+                continue;
+            }
             if let Status::Parked(p) = s {
-                if *p != 3 || holder.is_none() {
+                let en = if *p == 3 {
+                    holder.is_none()
+                } else if takes_notifier(*p) {
+                    !notifier_held || limbo.is_none()
+                } else {
+                    true
+                };
+                if en {
                     mask |= 1 << t;
                 }
             }
         }
         if mask == 0 {
-            let sched: Vec<usize> = path.iter().map(|p| p.0).collect();
             drop(g);
-            hang("deadlock-no-thread-enabled", cfg, &sched);
+            hang("deadlock-no-thread-enabled", cfg, &sched_of(&path));
         }
         let i = path.len();
         let t = if i < prefix.len() {
@@ -339,15 +458,48 @@ fn run_one(cfg: &Config, prefix: &[usize], rng: &mut Option<Rng>) -> RunResult {
             mask.trailing_zeros() as usize
         };
         path.push((t, mask));
+        let pt = match g.status[t] {
+            Status::Parked(p) => p,
+            _ => 0,
+        };
+        let speculative = takes_notifier(pt) && notifier_held;
+        let ktid = g.ktid[t];
         g.turn = Some(t);
         g.status[t] = Status::Running;
+        sh.idle[t].store(0, Ordering::SeqCst);
         sh.tcv[t].notify_one();
+        last = Some(t);
+        drop(g);
+        if speculative {
+            // does it go to sleep on the mutex, or does it get past the lock attempt?
+            let t0 = Instant::now();
+            let mut sleeping = 0;
+            loop {
+                if sh.idle[t].load(Ordering::SeqCst) == 1 {
+                    break; // it parked again / finished: recorded as an ordinary step
+                }
+                if kernel_state(ktid) == b'S' && sh.idle[t].load(Ordering::SeqCst) == 0 {
+                    sleeping += 1;
+                    if sleeping >= 3 {
+                        limbo = Some(t);
+                        trace.push(Ev { tid: t, pt: 13, a: pt, g: 0, v: 0, w: 0 });
+                        break;
+                    }
+                } else {
+                    sleeping = 0;
+                }
+                std::thread::yield_now();
+                if t0.elapsed() > Duration::from_secs(10) {
+                    hang("speculatively-released-thread-neither-parked-nor-slept", cfg, &sched_of(&path));
+                }
+            }
+        }
     }
     for h in handles {
         let _ = h.join();
     }
     let g = sh.m.lock().unwrap();
-    RunResult { path, trace: g.trace.clone(), loads: g.loads, oncb: g.oncb, status }
+    RunResult { path, trace, loads: g.loads, oncb: g.oncb, status }
 }
 
 fn cfg_string(cfg: &Config) -> String {
@@ -370,7 +522,7 @@ fn run_line(cfg: &Config, r: &RunResult) -> String {
     let sched: Vec<usize> = r.path.iter().map(|p| p.0).collect();
     let mut ev: Vec<String> = vec![cfg.fast.to_string(), cfg.fresh.to_string(), cfg.oncb.to_string(), r.trace.len().to_string()];
     for e in &r.trace {
-        ev.push(format!("{} {} {} {} {}", e.tid, e.pt, e.a, e.g, e.v));
+        ev.push(format!("{} {} {} {} {} {}", e.tid, e.pt, e.a, e.g, e.v, e.w));
     }
     format!("R {} | {} | {} {} {}", case_string(cfg, &sched), ev.join(" "), r.loads, r.oncb, r.status)
 }
